@@ -110,6 +110,11 @@ type Discipline struct {
 }
 
 // FieldDiscipline: a struct field that only the listed functions of the package may touch.
+type FrozenDiscipline struct {
+	Registrar string
+	Tags      []string
+}
+
 type FieldDiscipline struct {
 	Struct, Field string
 	Allowed       []string
@@ -135,6 +140,7 @@ type DetDiscipline struct {
 type Unit struct {
 	DetDisciplines   []DetDiscipline
 	ReachDisciplines []ReachDiscipline
+	FrozenDisciplines []FrozenDiscipline
 	FieldDisciplines []FieldDiscipline
 	Disciplines []Discipline
 	Name     string
@@ -574,6 +580,18 @@ func (cs *ContractSet) parseFile(file, relDir string) error {
 					}
 				}
 				unit.ReachDisciplines = append(unit.ReachDisciplines, rd)
+				continue
+			}
+			if unit != nil && strings.HasPrefix(s.rest, "captures-frozen ") {
+				// discipline captures-frozen <registrar> tags T: a variable captured by a closure that is handed to
+				// the registrar is not assigned again after the registration (the closure runs later, at commit)
+				rest := strings.TrimPrefix(s.rest, "captures-frozen ")
+				var tags []string
+				if k := strings.Index(rest, " tags "); k >= 0 {
+					tags = strings.Fields(rest[k+6:])
+					rest = rest[:k]
+				}
+				unit.FrozenDisciplines = append(unit.FrozenDisciplines, FrozenDiscipline{strings.TrimSpace(rest), tags})
 				continue
 			}
 			if unit != nil && (strings.HasPrefix(s.rest, "field ") || strings.HasPrefix(s.rest, "field-write ")) {
